@@ -209,7 +209,7 @@ func init() {
 			Setup:     func(ctx *fw.Ctx) error { return refSelfTest(true) },
 			Gen: func(ctx *fw.Ctx) []fw.Case {
 				var cs []fw.Case
-				nr := 3
+				nr := 8
 				if !ctx.Quick {
 					nr = 30
 				}
@@ -228,7 +228,7 @@ func init() {
 							}
 						}
 						for _, w := range routeds {
-							if ctx.Quick && (nch+qdf+w)%3 != 0 {
+							if ctx.Quick && (nch+qdf+w)%2 != 0 {
 								continue
 							}
 							cs = append(cs, fw.Case{ID: fmt.Sprintf("synth/ch%d/qdf%d/routed%d", nch, qdf, w), Kind: "synth", P: map[string]any{"nch": nch, "qdf": qdf, "routed": w}})
